@@ -1,10 +1,10 @@
 """Rule registry."""
 from . import (calendar_mode, normalise, eqhash, recurrence, ownership,
                typestate, zone, tablerules, signtables, errors, cli, scale,
-               extra)
+               extra, round5)
 
 ALL_RULES = {}
 for _mod in (calendar_mode, normalise, eqhash, recurrence, ownership,
              typestate, zone, tablerules, signtables, errors, cli, scale,
-             extra):
+             extra, round5):
     ALL_RULES.update(_mod.RULES)
